@@ -37,6 +37,16 @@ FSTRING_PROGRAMS = [
     ("posonly", "def f(a, /, b, *, c=1):\n    return a + b + c\nprint(f(1, 2))\n"),
     ("dict-merge-free", "a = {1: 2}\nb = {**a, 3: 4}\nprint(b)\n"),
     ("unpack-in-return", "def f():\n    t = (1, 2)\n    return (*t, 3)\nprint(f())\n"),
+    # class hooks that type.__new__ wraps implicitly: plain, explicitly decorated either way (descriptor chaining differs between 3.8 .. 3.13)
+    ("hook-plain", "class A:\n    def __class_getitem__(cls, k):\n        return (cls.__name__, k)\n    def __init_subclass__(cls, **kw):\n        cls.tag = 'sub'\nclass B(A):\n    pass\nprint(A[1], B[2], B.tag)\n"),
+    ("hook-classmethod", "class A:\n    @classmethod\n    def __class_getitem__(cls, k):\n        return (cls.__name__, k)\n    @classmethod\n    def __init_subclass__(cls, **kw):\n        cls.tag = 'sub'\nclass B(A):\n    pass\nprint(A[1], B[2], B.tag)\n"),
+    ("hook-staticmethod", "class A:\n    @staticmethod\n    def __class_getitem__(k):\n        return ('static', k)\nprint(A[1])\n"),
+    ("hook-decorated", "def d(f):\n    def w(cls, *a, **k):\n        return ('w', f(cls, *a, **k))\n    return w\nclass A:\n    @d\n    def __class_getitem__(cls, k):\n        return (cls.__name__, k)\nprint(A[1])\n"),
+    ("walrus-index", "a = [1, 2, 3]\ni = 0\nprint(a[(i := i + 1)], a[(j := 2)], i, j)\n"),
+    ("posonly-lambda", "f = lambda a, b=1, /, c=2, *, d=3: (a, b, c, d)\nprint(f(0), f(0, 5, d=9))\n"),
+    ("dict-union-free", "d = {**{'a': 1}, 'b': 2}\nprint(sorted(d.items()))\n"),
+    ("starred-index", "t = (1, 2)\nd = {(1, 2): 'x'}\nprint(d[t[0], t[1]])\n"),
+    ("return-starred", "def f(a):\n    return (1, *a)\nprint(f([2, 3]))\n"),
 ]
 
 
